@@ -17,7 +17,7 @@ theorem loop_first_count (now : Int) (spec document nowV : Val) :
       c.ttlIndexes = [] → DK l → LInv now [] l c → selectDocs spec l = .ok (q :: more) →
       updateLoop now spec document nowV false l c m u = (c', .ok (m', u')) →
       ∃ new, applyUpdate spec document nowV false q.2 = .ok new ∧ c' = c.setDoc q.1 new ∧
-        m' = m + 1 ∧ u' = u + (if unchangedB c.od q.1 new q.2 then 0 else 1) := by
+        m' = m + 1 ∧ u' = u + (if unchangedB new q.2 then 0 else 1) := by
   intro l
   induction l with
   | nil => intro c m u q more _ _ _ _ _ _ hs; cases hs
@@ -78,7 +78,7 @@ theorem update_one_counts (cfg : Cfg) (now : Int) (c c' : Coll) (fs : Fields) (u
     (hs : selectDocs (patchDT (.doc fs)) c.docs = .ok sel)
     (h : applyUpdateColl cfg now c (.doc fs) u false false = (c', .ok res)) :
     res.n = (sel.take 1).length ∧
-    res.nModified = ((sel.take 1).filter (changedAfter c c')).length ∧
+    res.nModified = ((sel.take 1).filter (contentChangedAfter c')).length ∧
     res.upserted = none := by
   unfold applyUpdateColl at h
   extract_lets spec document nowV at h
@@ -125,11 +125,10 @@ theorem update_one_counts (cfg : Cfg) (now : Int) (c c' : Coll) (fs : Fields) (u
           have hq : q ∈ c.docs := (select_sublist _ _ _ hs').subset (List.mem_cons_self ..)
           refine ⟨rfl, ?_, rfl⟩
           simp only [List.take_succ_cons, List.take_zero, List.filter_cons, List.filter_nil,
-            changedAfter, lookup_setDoc c q new hi.1 hg hq]
-          have : (if c.isOD q.1 = true then pyEqOrdered new q.2 else pyEq new q.2) =
-              unchangedB c.od q.1 new q.2 := rfl
+            contentChangedAfter, lookup_setDoc c q new hi.1 hg hq]
+          have : pyEq new q.2 = unchangedB new q.2 := rfl
           rw [this]
-          cases unchangedB c.od q.1 new q.2 <;> simp
+          cases unchangedB new q.2 <;> simp
   · cases h
 
 end MongoModel.Proofs.C10Ext
